@@ -267,5 +267,28 @@ def load_replay(path):
         return json.load(f)
 
 
+def expand_ops(case, shift_positions=(1,)):
+    """The operation list of a history, repeated case['repeat'] times (default 1).  In repetition number `it` the integer
+    arguments at *shift_positions* are shifted by `it`, so a short generated program becomes a long history that keeps
+    touching new keys (long-lived internal state: counters, tables, thresholds).  Yields (op, full_check): the expensive
+    whole-state comparison is only requested at the end of each repetition when the history is repeated."""
+    rep = max(1, int(case.get('repeat', 1) or 1))
+    ops = case['ops']
+    if rep == 1:
+        return [(op, True) for op in ops]
+    out = []
+    for it in range(rep):
+        for j, op in enumerate(ops):
+            op2 = list(op)
+            for pos in shift_positions:
+                if pos < len(op2) and isinstance(op2[pos], int) and not isinstance(op2[pos], bool):
+                    op2[pos] = op2[pos] + it
+            out.append((op2, j == len(ops) - 1))
+    return out
+
+
+REPEATS = [1] * 44 + [30, 100]
+
+
 def fmt_exc():
     return traceback.format_exc(limit=8)
